@@ -250,6 +250,14 @@ func (s *Lexer) readNumber() (Token, error) {
 		}
 	}
 
+	// a number must not be followed by a digit, a dot or the start of a name (`123abc`, `0xF`, `1.2.3`)
+	if s.end < len(s.Input) {
+		c := s.Input[s.end]
+		if c == '.' || c == '_' || (c >= '0' && c <= '9') || (c >= 'a' && c <= 'z') || (c >= 'A' && c <= 'Z') {
+			return s.makeError("Invalid number, expected digit but got: %s.", s.describeNext())
+		}
+	}
+
 	if float {
 		return s.makeToken(Float)
 	}
